@@ -248,6 +248,33 @@ CLAIMED.update(
     }
 )
 
+CLAIMED.update(
+    {
+        "C20": (
+            "abstract interpretation of the assertion renderers by the checker's own evaluator over a partition of floats and assertable values, libcst constructors kept symbolic with libcst's token-validity rules re-implemented, rendered text evaluated against the observed value; dispatch-order and table-agreement rules",
+            "Decides 'rendering never fails, produces valid Python, and the rendered value equals the observed one' on a finite partition: _make_float_literal over 18 float representatives "
+            "(signed zero, subnormals, huge, integral, inf, -inf, nan) and _value_to_cst over ~38 assertable values (None, bools, ints incl. negative and > 64 bit, str/bytes with quotes, "
+            "escapes and non-ASCII, complex incl. signed-zero / inf / nan components, members of Enum, StrEnum with overridden __str__, IntEnum, Flag, nested and empty "
+            "lists/tuples/sets/dicts) are interpreted from source; every Float/Integer/SimpleString/Name token must satisfy libcst's validation, the text must compile and must "
+            "evaluate to a value for which the emitted assertion holds. Each reference-assertion renderer must yield a parseable `assert`. Dispatch: bool before int, enum before "
+            "str/int; every type admitted by is_assertable and every assertion class the trace observer creates has a renderer arm. Behaviour inside a partition cell is assumed "
+            "uniform; `x == pytest.approx(nan)` and resolution of enum class names in the exported namespace are not decided.",
+            "Trusts sa/engine/peval.py and sa/engine/cstterm.py (token regexes, source rendering of the node shapes used by the renderers).",
+            "DESIGN.md §3 C20",
+        ),
+        "C23": (
+            "abstract interpretation of literal_to_cst / parse_literal / ml_value_to_cst over a value partition with symbolic libcst terms (render -> validate tokens -> evaluate; render -> parse), dispatch-table agreement, bool-before-int order, no-memoisation rule on value renderers",
+            "Decides the round-trip clause on a finite partition: for 17 float representatives, 17 primitives (bool, small/huge/negative ints, str and bytes with quotes/escapes/NUL, complex "
+            "with signed-zero / inf / nan components) and 10 collections, literal_to_cst interpreted from source yields valid tokens whose text evaluates to the same value (type, sign of "
+            "zero, inf, nan), and parse_literal applied to the very term the renderer built returns the value (the parser accepts exactly the shapes the renderer emits); the ML twin "
+            "ml_value_to_cst agrees on the numeric partition; generate / mutate / parse / render dispatch over the same primitive types with bool before int; no renderer is memoised. "
+            "Random generation and mutation draws are not decided.",
+            "Trusts sa/engine/peval.py and sa/engine/cstterm.py.",
+            "DESIGN.md §3 C23",
+        ),
+    }
+)
+
 NOT_APPLICABLE: dict[str, str] = {
     "C06": "Correctness of the post-dominator/CDG construction on every code object is functional correctness of a graph "
     "algorithm; no shape of the code implies it and no sound static argument in reach bounds 'all code objects'.",
